@@ -245,6 +245,13 @@ def run_case(case):
                         v(f"request-failed-without-being-reset:{exc_name(rec['exc'])}:{tag}",
                           f"{rec['token']} ({rec['beh']}) failed with {rec['exc']!r} although the server never reset it",
                           {"spec": spec, "token": rec["token"]})
+            if out.kind != "hang":
+                # everything has been read or given up: no live connection may still owe connection-level credit
+                from ..world import h2_credit_leaks
+                cnt["oracle_credit_conserved"] = cnt.get("oracle_credit_conserved", 0) + 1
+                for leak in h2_credit_leaks(wl.pool):
+                    v("connection-credit-leaked", f"all responses are closed and the connection still owes {leak['owed']} bytes of "
+                      f"connection-level flow-control credit that it has not noted for return ({leak})", {"spec": spec})
             if wl.net.busy_events:
                 v("concurrent-io-on-one-stream", f"{wl.net.busy_events} overlapping read/write calls on one network stream",
                   {"spec": spec})
